@@ -15,6 +15,7 @@ import (
 	"github.com/KevoDB/kevo/pkg/engine/storage"
 	"github.com/KevoDB/kevo/pkg/wal"
 	"github.com/KevoDB/kevo/pkg/zzverif/vsched"
+	"verif/mc/explore"
 	"verif/mc/fw"
 )
 
@@ -517,7 +518,7 @@ func init() {
 	fw.Register(&fw.Check{
 		ID:    "C05",
 		Level: "model_checking",
-		Rule: "layer arrangements: every assignment {absent,value,tombstone} of 2 keys x 3 layers and 3 keys x 2 layers (quick) / 3 keys x 3 layers = 19683 (thorough), built oldest layer first on the real engine in 7 stack shapes (one memtable; 2 immutables+active; SST+immutable+active; 2 SST+active; the same after reopen; 3 SSTs with the flushed log files retired; 2 SSTs log-retired + active); on each: full scan, Seek to 7 targets (keys, gaps, ends) followed by iteration, SeekToLast, every range [lo,hi) over those bounds with SeekToFirst/Seek/SeekToLast, prefix and suffix filters, the same inside a read-write transaction with 5 single-operation overlays and inside a read-only transaction. Oracle: sorted map model minus deleted keys, consumer skips IsTombstone entries. Non-trivial = arrangements with >=2 non-empty layers. Concurrent scans: scenarios scan-vs-writer / flush, all interleavings up to the deviation bound.",
+		Rule: "layer arrangements: every assignment {absent,value,tombstone} of 2 keys x 3 layers and 3 keys x 2 layers (quick) / 3 keys x 3 layers = 19683 (thorough), built oldest layer first on the real engine in 7 stack shapes (one memtable; 2 immutables+active; SST+immutable+active; 2 SST+active; the same after reopen; 3 SSTs with the flushed log files retired; 2 SSTs log-retired + active); on each: full scan, Seek to 7 targets (keys, gaps, ends) followed by iteration, SeekToLast, every range [lo,hi) over those bounds with SeekToFirst/Seek/SeekToLast, prefix and suffix filters, the same inside a read-write transaction with 5 single-operation overlays and inside a read-only transaction. Oracle: sorted map model minus deleted keys, consumer skips IsTombstone entries. Non-trivial = arrangements with >=2 non-empty layers. Concurrent scans: a full scan over keys spread over an SSTable, an immutable and the active table against a writer of other keys, a transactional writer, an explicit flush, writer+flush and a compaction: all interleavings up to the deviation bound (2 for the writer scenarios, 1 for the maintenance scenarios; thorough +1); the scan must be strictly ascending, duplicate-free, contain every pre-existing untouched key with its value, no deleted key and nothing nobody wrote.",
 		Assumptions: []string{"layer boundaries are forced through an export hook that calls the engine's own scheduleFlush", "log retirement is simulated by deleting every log file but the newest after all data was flushed"},
 		Units: func(tier string) []string {
 			var us []string
@@ -646,5 +647,142 @@ func clipS(s string, n int) string {
 	return s
 }
 
-func c05SchedUnits(tier string) []string              { return nil }
-func c05SchedUnit(unit string, env *fw.Env) *fw.Result { return fw.NewResult() }
+// concurrent scans: a running scan against writers, a flush and a compaction that touch other keys
+type c05ScanObs struct {
+	Keys []string
+	Vals []string
+	Err  string
+}
+
+func c05Scenarios() []*explore.Scenario {
+	mk := func(name string, cfg string, others []string) *explore.Scenario {
+		return &explore.Scenario{Name: name, MaxSteps: 3_000_000,
+			Body: func() any {
+				dir := filepath.Join(fw.ProcDir("c05s"), "db")
+				obs := &c05ScanObs{}
+				r, err := newEngRun(dir, engCfgs[cfg])
+				if err != nil {
+					obs.Err = "open: " + err.Error()
+					return obs
+				}
+				defer r.Close()
+				sm := r.Eng.VerifStorage().(*storage.Manager)
+				// pre-existing keys spread over an SSTable, an immutable table and the active table
+				r.Eng.Put([]byte("k2"), []byte("v2"))
+				sm.VerifSwitch()
+				vsched.Quiesce()
+				r.Eng.Put([]byte("k4"), []byte("v4"))
+				r.Eng.Put([]byte("k0"), []byte("gone"))
+				r.Eng.Delete([]byte("k0"))
+				sm.VerifSwitch()
+				r.Eng.Put([]byte("k6"), []byte("v6"))
+				var ts []*vsched.Thread
+				ts = append(ts, vsched.GoNamed("SCAN", func() {
+					it, err := r.Eng.GetIterator()
+					if err != nil {
+						obs.Err = "iterator: " + err.Error()
+						return
+					}
+					n := 0
+					for it.SeekToFirst(); it.Valid() && n < 200; it.Next() {
+						n++
+						if !it.IsTombstone() {
+							obs.Keys = append(obs.Keys, string(it.Key()))
+							obs.Vals = append(obs.Vals, string(it.Value()))
+						}
+					}
+				}))
+				for i, o := range others {
+					i, o := i, o
+					ts = append(ts, vsched.GoNamed(fmt.Sprintf("O%d", i+1), func() {
+						switch o {
+						case "writer":
+							r.Eng.Put([]byte("k1"), []byte("new1"))
+							r.Eng.Put([]byte("k5"), []byte("new5"))
+							r.Eng.Delete([]byte("k3"))
+						case "flush":
+							r.Eng.FlushImMemTables()
+						case "compact":
+							r.Eng.TriggerCompaction()
+						case "txwriter":
+							if tx, err := r.Eng.BeginTransaction(false); err == nil {
+								tx.Put([]byte("k1"), []byte("new1"))
+								tx.Put([]byte("k7"), []byte("new7"))
+								tx.Commit()
+							}
+						}
+					}))
+				}
+				for _, t := range ts {
+					vsched.Join(t)
+				}
+				return obs
+			},
+			Check: func(s *vsched.Sched, o any) (string, string) {
+				ob := o.(*c05ScanObs)
+				key := strings.Join(ob.Keys, ",")
+				if ob.Err != "" {
+					return key, "operation-failed\n" + ob.Err
+				}
+				for i := 1; i < len(ob.Keys); i++ {
+					if ob.Keys[i] <= ob.Keys[i-1] {
+						return key, fmt.Sprintf("concurrent-scan-order\na scan running next to writers is not strictly ascending / duplicate-free: %v", ob.Keys)
+					}
+				}
+				got := map[string]string{}
+				for i, k := range ob.Keys {
+					got[k] = ob.Vals[i]
+				}
+				for k, v := range map[string]string{"k2": "v2", "k4": "v4", "k6": "v6"} {
+					if got[k] != v {
+						return key, fmt.Sprintf("concurrent-scan-missing\nkey %s existed before the scan started and is not written during it, the scan shows %q (scan: %v)", k, got[k], ob.Keys)
+					}
+				}
+				if _, ok := got["k0"]; ok {
+					return key, fmt.Sprintf("concurrent-scan-resurrected\nkey k0 was deleted before the scan started, the scan shows it (scan: %v)", ob.Keys)
+				}
+				for k, v := range got {
+					want := map[string]string{"k1": "new1", "k5": "new5", "k7": "new7", "k2": "v2", "k4": "v4", "k6": "v6"}[k]
+					if want == "" || v != want {
+						return key, fmt.Sprintf("concurrent-scan-fabricated\nthe scan shows %s=%q which no client wrote", k, v)
+					}
+				}
+				return key, ""
+			}}
+	}
+	return []*explore.Scenario{
+		mk("scan-vs-writer", "big", []string{"writer"}),
+		mk("scan-vs-flush", "big", []string{"flush"}),
+		mk("scan-vs-writer-flush", "big", []string{"writer", "flush"}),
+		mk("scan-vs-compact", "tiny2", []string{"compact"}),
+		mk("scan-vs-txwriter", "big", []string{"txwriter"}),
+	}
+}
+
+func c05SchedUnits(tier string) []string {
+	b := 2
+	if tier == "thorough" {
+		b = 3
+	}
+	var us []string
+	for _, sc := range c05Scenarios() {
+		bb, n := b-1, 4
+		if sc.Name == "scan-vs-writer" || sc.Name == "scan-vs-txwriter" {
+			bb = b
+		}
+		us = append(us, shardUnits(sc.Name, bb, n)...)
+	}
+	return us
+}
+
+func c05SchedUnit(unit string, env *fw.Env) *fw.Result {
+	sp := parseSched(unit)
+	for _, sc := range c05Scenarios() {
+		if sc.Name == sp.Name {
+			return runSched("C05", sc, sp, env, 2)
+		}
+	}
+	r := fw.NewResult()
+	r.HarnessErr = "unknown unit " + unit
+	return r
+}
